@@ -8,8 +8,8 @@ from vf.models.refdevs import OK
 
 PROPERTY = "C04"
 LEVEL = "exploration"
-BUDGET = {"quick": 36000, "thorough": 6000000}
-WALL_CAP = {"quick": 200, "thorough": 3300}
+BUDGET = {"quick": 48000, "thorough": 6000000}
+WALL_CAP = {"quick": 260, "thorough": 3300}
 CHUNK = 250
 RULE = ("layer (a): command sequences issued at quiescence — every sequence of "
         "length <= 4 (thorough tier: <= 5) over {initialize,start,step,stop,run_up_to(mid),"
@@ -256,9 +256,9 @@ def gen_overlap(rng, seed, tier):
     directed = None
     stalled_start = False
     end_then = False
-    if shape < 0.08:
+    if shape < 0.14:
         directed = _pause_then_step(rng, prog, case)
-    elif shape < 0.18:
+    elif shape < 0.24:
         # directed: a paused replication is ended by the caller and cleaned up /
         # re-initialised at once, while the run thread is still finishing it
         probe = devscommon.make_ref({"program": prog, "strategy": 3})
@@ -273,7 +273,7 @@ def gen_overlap(rng, seed, tier):
                                     [["sleep", 0.0005], ["cleanup"]],
                                     [["sleep", 0.001], ["initialize"]]])
             end_then = True
-    elif shape < 0.23:
+    elif shape < 0.32:
         # directed: the run thread is descheduled for more than start()'s handshake
         # somewhere between wake-up and its first event, the caller's start()
         # gives up waiting and stop() (or more) follows while the state is STARTING
@@ -284,12 +284,12 @@ def gen_overlap(rng, seed, tier):
         cmds += [["start"], ["stop"]]
         if rng.random() < 0.5:
             cmds += [rng.choice([["start"], ["step"], ["stop"], ["settle"]])]
-    elif shape < 0.2:
+    elif shape < 0.36:
         for _ in range(rng.randint(1, 4)):
             cmds += [["start"], ["stop"]]
-    elif shape < 0.3:
+    elif shape < 0.42:
         cmds += [["start"], ["poll"], ["start"]]
-    elif shape < 0.4:
+    elif shape < 0.48:
         cmds += [["start"], ["stop"], ["start"], ["poll"]]
     else:
         pool = [["start"]] * 4 + [["stop"]] * 4 + [["step"]] * 2 + [["poll"]] + \
